@@ -213,6 +213,65 @@ func main() {
 	cmp("built-in", "after-load-without-file", builtin, absent)
 	cmp("built-in", "shipped-file", builtin, shipped)
 
+	// (d) the shipped file as installations really place it in the configuration directory: a plain copy, a
+	// read-only copy, a hard link, a relative and an absolute symbolic link, the two-level link of a mounted
+	// configuration volume (ipfix.elements -> ..data/ipfix.elements, ..data -> ..2026_01_01), a copy with CRLF
+	// line ends is NOT tried (that is another file). The loaded table must be the one of form (c).
+	content, rerr := os.ReadFile(filepath.Join(shippedDir, "ipfix.elements"))
+	if rerr != nil {
+		run.HarnessError(rerr.Error())
+	} else {
+		formsDir := filepath.Join(os.Getenv("VERIF_RUN"), "forms")
+		store := filepath.Join(formsDir, "store")
+		os.MkdirAll(store, 0o755)
+		os.WriteFile(filepath.Join(store, "ipfix.elements"), content, 0o644)
+		forms := []struct {
+			name  string
+			place func(dir string) error
+		}{
+			{"plain copy", func(d string) error { return os.WriteFile(filepath.Join(d, "ipfix.elements"), content, 0o644) }},
+			{"read-only copy", func(d string) error { return os.WriteFile(filepath.Join(d, "ipfix.elements"), content, 0o444) }},
+			{"hard link", func(d string) error { return os.Link(filepath.Join(store, "ipfix.elements"), filepath.Join(d, "ipfix.elements")) }},
+			{"absolute symbolic link", func(d string) error {
+				return os.Symlink(filepath.Join(store, "ipfix.elements"), filepath.Join(d, "ipfix.elements"))
+			}},
+			{"relative symbolic link", func(d string) error {
+				return os.Symlink(filepath.Join("..", "store", "ipfix.elements"), filepath.Join(d, "ipfix.elements"))
+			}},
+			{"mounted configuration volume (two-level links)", func(d string) error {
+				os.MkdirAll(filepath.Join(d, "..2026_01_01"), 0o755)
+				os.WriteFile(filepath.Join(d, "..2026_01_01", "ipfix.elements"), content, 0o644)
+				if err := os.Symlink("..2026_01_01", filepath.Join(d, "..data")); err != nil {
+					return err
+				}
+				return os.Symlink(filepath.Join("..data", "ipfix.elements"), filepath.Join(d, "ipfix.elements"))
+			}},
+			{"configuration directory itself a symbolic link", func(d string) error {
+				os.Remove(d)
+				return os.Symlink(store, d)
+			}},
+		}
+		for fi, f := range forms {
+			d := filepath.Join(formsDir, fmt.Sprintf("form%d", fi))
+			os.MkdirAll(d, 0o755)
+			if err := f.place(d); err != nil {
+				run.Inconclusive("installation form '" + f.name + "' cannot be set up here: " + err.Error())
+				continue
+			}
+			ipfix.InfoModel = ipfix.IANAInfoModel{}
+			for k, e := range orig {
+				ipfix.InfoModel[k] = e
+			}
+			run.Add("installation_forms_of_the_shipped_file_loaded", 1)
+			if err := ipfix.LoadExtElements(d); err != nil {
+				v("load-shipped-error:form", "LoadExtElements on the shipped file installed as "+f.name+": "+err.Error(), f.name)
+				continue
+			}
+			cmp("shipped-file", "shipped-file installed as "+f.name, shipped, dump())
+		}
+		ipfix.InfoModel = orig
+	}
+
 	// every entry keyed by its own id, recognised type
 	selfKeyed := func(name string, m map[[2]uint32]entry) {
 		for k, e := range m {
